@@ -559,6 +559,7 @@ def targeted_worker(job):
                 vectors = [(["r", a] if isinstance(a, str) else ["r"] + a, "/dev/full") for a in
                            ("-print", "-print0", ["-printf", "%p %s %u\\n"], "-ls", ["-fprintf", "/dev/full", "%p\\n"], ["-fprint", "/dev/full"],
                             ["-fls", "/dev/full"], ["-print", "-printf", "x", "-ls"], ["-exec", "true", "{}", ";", "-print"])]
+                vectors += [([a], "/dev/full") for a in ("-version", "--version", "-help", "--help")] + [(["r", "-version"], "/dev/full")]
             if k == 5:
                 for depth in (10, 200, 1000, 5000, 30000):
                     vectors.append((["r"] + ["("] * depth + ["-true"] + [")"] * depth, None))
